@@ -319,9 +319,42 @@ def gen_edges(rng, index):
                 steps.append({"k": "op", "op": ["parser_new"], "mode": mode})
                 steps.append({"k": "op", "op": ["strptime_s", n, 0],
                               "mode": mode})
+    # second counts at the boundaries of the arithmetic itself: whole numbers
+    # of weeks, years, 4/100/400-year cycles and 2800-year blocks away from
+    # the epoch (in the calendar whose cycle it is), a day and a second
+    # either side -- where a shortcut over "whole cycles" would cut
+    cyc = cycle_counts()
+    for cmode, n in cyc[index % 56::56]:
+        steps.append({"k": "op", "op": ["from_epoch", n, True],
+                      "mode": cmode})
+        steps.append({"k": "op", "op": ["from_epoch", n, False],
+                      "mode": cmode})
+        steps.append({"k": "op", "op": ["props_from_epoch", n],
+                      "mode": cmode})
+        if n >= 0:
+            steps.append({"k": "op", "op": ["parser_new"], "mode": cmode})
+            steps.append({"k": "op", "op": ["strptime_s", n, 0],
+                          "mode": cmode})
     return {"property": PROP, "kind": "edges", "index": index, "mode": mode,
             "zones": zones, "cur": 0, "isdst": 0,
             "start_us": 946684800 * 10 ** 6, "steps": steps}
+
+
+CYCLE_DAYS = [(7, "gregorian"), (360, "360day"), (365, "365day"),
+              (366, "366day"), (365, "gregorian"), (1461, "gregorian"),
+              (36524, "gregorian"), (36525, "gregorian"),
+              (146097, "gregorian"), (144000, "360day"), (146000, "365day"),
+              (146400, "366day"), (1022679, "gregorian"),
+              (1008000, "360day")]
+
+
+def cycle_counts():
+    out = []
+    for days, mode in CYCLE_DAYS:
+        for k in (1, -1, 2):
+            for d in (-86400, -1, 0, 1, 86399, 86400):
+                out.append((mode, k * days * 86400 + d))
+    return out
 
 
 # --------------------------------------------------------------------------
